@@ -35,6 +35,8 @@ Inside an extract block the lines are annotation sub-directives:
    @rewrite <literal> => <replacement>     site rewrite (logged with its reason; literal is matched
                                            modulo whitespace and must occur exactly once)
    @reason <text>     reason attached to the previous @rewrite (goes to the evidence)
+   @rewrite-all <literal> => <replacement> same, every occurrence (at least one)
+   @rewrite-re <regex> ==>> <replacement>  regex form (python re, \\1 groups), every occurrence (at least one)
    @sig <literal> => <replacement>         rewrite restricted to the signature
 Ghost insertions are checked mechanically to be ghost-only (assert / proof / broadcast use / let ghost).
 
@@ -558,14 +560,14 @@ def parse_block(lines):
             ent = [s[len("@after "):].strip(), []]
             blk["after"].append(ent)
             cur = ent[1]
-        elif s.startswith("@rewrite ") or s.startswith("@sig ") or s.startswith("@rewrite-all "):
+        elif s.startswith("@rewrite ") or s.startswith("@sig ") or s.startswith("@rewrite-all ") or s.startswith("@rewrite-re "):
             key = "sig" if s.startswith("@sig ") else "rewrites"
             body = s.split(" ", 1)[1]
             sep = "==>>" if "==>>" in body else "=>"
             if sep not in body:
                 raise ExtractError("bad-template", f"rewrite without => : {s}")
             a, b = body.split(sep, 1)
-            blk[key].append({"from": a.strip(), "to": b.strip(), "reason": "", "all": s.startswith("@rewrite-all ")})
+            blk[key].append({"from": a.strip(), "to": b.strip(), "reason": "", "all": s.startswith("@rewrite-all ") or s.startswith("@rewrite-re "), "re": s.startswith("@rewrite-re ")})
             cur = None
         elif s.startswith("@reason "):
             tgt = blk["rewrites"] if blk["rewrites"] else blk["sig"]
@@ -584,7 +586,7 @@ def parse_block(lines):
 def apply_rewrites(text, rewrites, log, what):
     for rw in rewrites:
         m = mask(text)
-        pat = ws_pattern(rw["from"])
+        pat = re.compile(rw["from"]) if rw.get("re") else ws_pattern(rw["from"])
         # match on the original text but only at positions that are code in the mask
         hits = [h for h in pat.finditer(mask_comments(text)) if m[h.start()] == text[h.start()]]
         if rw.get("all"):
@@ -594,7 +596,8 @@ def apply_rewrites(text, rewrites, log, what):
             raise ExtractError("rewrite-miss", f"{what}: rewrite source `{rw['from']}` occurs {len(hits)} times (expected 1)")
         for h in reversed(hits):
             seg = text[h.start():h.end()]
-            repl = rw["to"].replace("\\n", "\x01") + "\n" * seg.count("\n")
+            to = h.expand(rw["to"]) if rw.get("re") else rw["to"]
+            repl = to.replace("\\n", "\x01") + "\n" * seg.count("\n")
             text = text[:h.start()] + repl + text[h.end():]
         log.append(f"REWRITE{' (all %d sites)' % len(hits) if rw.get('all') else ''} `{rw['from']}` => `{rw['to']}`" + (f" [{rw['reason']}]" if rw["reason"] else ""))
     return text
